@@ -277,7 +277,8 @@ class Paraxial:
         y, u = self._trace_generic(y0, u0, z0, wavelength, reverse=True,
                                    skip=stop_index+1)
 
-        max_field = self.optic.fields.max_y_field
+        # the maximum (radial) field that normalised coordinates refer to
+        max_field = self.optic.fields.max_field
 
         if self.optic.field_type == 'object_height':
             # the reverse trace stops at the first surface; carry the ray on
